@@ -19,9 +19,15 @@ open Rubato
 @[simp] theorem ofNat_eq (n : ℕ) : (RNum.ofNat n : ℚ) = (n : ℚ) := by
   simp [RNum.ofNat]
 @[simp] theorem zero_eq : (RNum.zero : ℚ) = 0 := by simp [RNum.zero]
-@[simp] theorem one_eq : (RNum.one : ℚ) = 1 := by simp [RNum.one]
-@[simp] theorem two_eq : (RNum.two : ℚ) = 2 := by simp [RNum.two]
-@[simp] theorem ten_eq : (RNum.ten : ℚ) = 10 := by simp [RNum.ten]
+@[simp] theorem one_eq : (RNum.one : ℚ) = 1 := by
+  show ((1 : ℕ) : ℚ) / ((1 : ℕ) : ℚ) = 1
+  norm_num
+@[simp] theorem two_eq : (RNum.two : ℚ) = 2 := by
+  show ((2 : ℕ) : ℚ) / ((1 : ℕ) : ℚ) = 2
+  norm_num
+@[simp] theorem ten_eq : (RNum.ten : ℚ) = 10 := by
+  show ((10 : ℕ) : ℚ) / ((1 : ℕ) : ℚ) = 10
+  norm_num
 @[simp] theorem lit_eq (b : UInt64) (n d : ℕ) : (RNum.lit b n d : ℚ) = (n : ℚ) / (d : ℚ) := rfl
 @[simp] theorem half_eq : (RNum.half : ℚ) = 1 / 2 := by simp [RNum.half]
 @[simp] theorem lt_eq (a b : ℚ) : RNum.lt a b = decide (a < b) := rfl
